@@ -1,10 +1,12 @@
 use crate::report::Report;
 use crate::Ctx;
 
+pub mod c03;
 pub mod c20;
 
 pub fn run(prop: &str, ctx: &mut Ctx) -> Option<Report> {
     match prop {
+        "C03" => Some(c03::run(ctx)),
         "C20" => Some(c20::run(ctx)),
         _ => None,
     }
